@@ -10,10 +10,9 @@ def _bv(z3, x):
     return z3.BoolVal(x) if isinstance(x, bool) else x
 
 
-def build(z3, task):
+def _encode(z3, task, alg):
     from . import abnf, pegenc
     n = task['n']
-    alg = pegenc.Z3Alg(z3, n)
     pe = pegenc.PegEnc(task['rules'], alg, n)
     acc, rz = pe.accepts(task['root'])
     g = abnf.Grammar(task['abnf_text'] + '\n' + task.get('abnf_ext', ''))
@@ -23,11 +22,34 @@ def build(z3, task):
     if task.get('known_start'):
         known = dv.rule(task['known_start'], 0, n)
     info = {'peg_memo': len(pe.memo), 'rfc_memo': len(dv.memo) + len(dv.cmemo) + len(dv.rmemo), 'bool_nodes': alg.nodes}
-    return alg, _bv(z3, acc), _bv(z3, rz), _bv(z3, rfc), (None if known is None else _bv(z3, known)), info
+    return _bv(z3, acc), _bv(z3, rz), _bv(z3, rfc), (None if known is None else _bv(z3, known)), info
 
 
-def _model_bytes(z3, m, alg):
-    return [m.eval(b, model_completion=True).as_long() for b in alg.s]
+def build(z3, task):
+    """Pass 1 (RecAlg, bit-vector bytes) records every byte set either encoding tests.  If no encoding looks at raw
+    byte values, pass 2 re-encodes over one-hot byte CLASSES (the partition induced by those sets); otherwise the
+    bit-vector encoding of pass 1 is used."""
+    from . import pegenc
+    n = task['n']
+    rec = pegenc.RecAlg(z3, n)
+    acc, rz, rfc, known, info = _encode(z3, task, rec)
+    if rec.raw or os.environ.get('PEG2SMT_NOCLASS') or not rec.sets:
+        info['bytes_as'] = 'bit-vectors (8 bit)'
+        return rec, acc, rz, rfc, known, info
+    classes = pegenc.byte_classes(rec.sets)
+    alg = (pegenc.ClassAlg if os.environ.get('PEG2SMT_ONEHOT') else pegenc.ClassBvAlg)(z3, n, classes)
+    acc, rz, rfc, known, info = _encode(z3, task, alg)
+    info['bytes_as'] = 'one-hot over %d byte classes' % len(classes)
+    info['byte_classes'] = len(classes)
+    return alg, acc, rz, rfc, known, info
+
+
+def _pick(seedless_idx):
+    def pick(blk, k):
+        pr = [b for b in blk if 0x21 <= b <= 0x7e]
+        cand = pr or blk
+        return cand[(seedless_idx * 7 + k * 3) % len(cand)] if seedless_idx else cand[0]
+    return pick
 
 
 def _mk_solver(z3, task):
@@ -63,6 +85,8 @@ def solve(task):
     else:
         raise ValueError(mode)
     s = _mk_solver(z3, task)
+    side = alg.side_constraints()
+    s.add(*side) if side else None
     s.add(goal)
     out['assertions'] = len(s.assertions())
     t1 = time.time()
@@ -91,7 +115,7 @@ def solve(task):
             pass
     if r == z3.sat:
         m = s.model()
-        out['witness'] = _model_bytes(z3, m, alg)
+        out['witness'] = alg.model_bytes(m, _pick(0))
         out['witness_vals'] = {'peg_accept': z3.is_true(m.eval(acc, model_completion=True)),
                                'peg_raise': z3.is_true(m.eval(rz, model_completion=True)),
                                'rfc': z3.is_true(m.eval(rfc, model_completion=True))}
@@ -100,6 +124,7 @@ def solve(task):
     # exclusion soundness: every string of the known language is a disagreement of the known shape
     if mode == 'confirm' and r == z3.sat:
         s2 = _mk_solver(z3, task)
+        s2.add(*side) if side else None
         s2.add(z3.And(known, z3.Not(z3.And(z3.Not(acc), rfc))))
         t1 = time.time()
         r2 = s2.check()
@@ -113,6 +138,7 @@ def solve(task):
                             ('rfc_derives', rfc), ('rfc_not', z3.Not(rfc))):
             s3 = _mk_solver(z3, task)
             s3.set('timeout', 20000)
+            s3.add(*side) if side else None
             s3.add(cond)
             got = 0
             t1 = time.time()
@@ -121,7 +147,7 @@ def solve(task):
                 if r3 != z3.sat:
                     break
                 m = s3.model()
-                bs = _model_bytes(z3, m, alg)
+                bs = alg.model_bytes(m, _pick(got + 1))
                 samples.append({'class': label, 'bytes': bs,
                                 'peg_accept': z3.is_true(m.eval(acc, model_completion=True)),
                                 'peg_raise': z3.is_true(m.eval(rz, model_completion=True)),
@@ -129,7 +155,7 @@ def solve(task):
                 got += 1
                 if not alg.s:
                     break
-                s3.add(z3.Or(*[b != v for b, v in zip(alg.s, bs)]))
+                s3.add(alg.block(m))
             queries.append({'q': 'sample ' + label, 'result': '%d models' % got, 's': round(time.time() - t1, 3)})
             out.setdefault('class_sat', {})[label] = got > 0
     out['samples'] = samples
